@@ -1319,7 +1319,13 @@ class AstEval:
                                 return val
                     finally:
                         if handler.name is not None:
-                            del self.sym_table[handler.name]
+                            # unbind the name as python does; the handler may have deleted it already,
+                            # and a closure cell stays in place (marked undefined)
+                            var = self.sym_table.get(handler.name)
+                            if isinstance(var, EvalLocalVar):
+                                var.set_undefined()
+                            else:
+                                self.sym_table.pop(handler.name, None)
                     break
             else:
                 raise err
